@@ -100,7 +100,15 @@ def run_property(prop, repo, tier, replay=None, quiet=False):
     prog = Program(units)
     ctx = Ctx(prog, prop, tier)
     mod = importlib.import_module(f"osq.rules.{prop.lower()}")
-    mod.run(ctx)
+    try:
+        mod.run(ctx)
+    except Exception as e:     # a rule that cannot digest the tree must never look like a pass
+        import traceback
+        tb = traceback.format_exc()
+        print(f"CHECKER-CRASHED property={prop}: {type(e).__name__}: {e}\n{tb[-1500:]}")
+        print(f"VIOLATION property={prop} replay=none (the rules could not be evaluated on this tree; an unchecked property never passes)")
+        _write_evidence(evidence_path, prop, tier, seed, None, [], [], [], time.time() - t0, log, failed=f"rule crash: {type(e).__name__}: {e}")
+        return 1
 
     known = [k for k in load_known() if k["property"] == prop]
     known_keys = {k["key"]: k for k in known if k.get("status", "known") == "known"}
